@@ -100,6 +100,11 @@ func (q *MultiOpQueryer) fetch(inputs []*requests.Request) ([]requests.Response,
 		return nil, err
 	}
 
+	// the service must answer every request of the batch, and nothing else
+	if len(results) != len(inputs) {
+		return nil, errors.New("response contains " + strconv.Itoa(len(results)) + " results for " + strconv.Itoa(len(inputs)) + " requests")
+	}
+
 	// return the results
 	return results, nil
 }
